@@ -183,12 +183,12 @@ def sqpk : P Cmd := do
 
 /-- `ChunkType` after its 4-byte magic -/
 def chunkBody (magic : Bytes) : P Cmd :=
-  if magic == ascii "FHDR" then fileHeader
-  else if magic == ascii "APLY" then applyOption
-  else if magic == ascii "ADIR" then directory
-  else if magic == ascii "DELD" then directory
-  else if magic == ascii "SQPK" then sqpk
-  else if magic == ascii "EOF_" then pure .eof
+  if magic == ([0x46, 0x48, 0x44, 0x52] : Bytes) /- "FHDR" -/ then fileHeader
+  else if magic == ([0x41, 0x50, 0x4C, 0x59] : Bytes) /- "APLY" -/ then applyOption
+  else if magic == ([0x41, 0x44, 0x49, 0x52] : Bytes) /- "ADIR" -/ then directory
+  else if magic == ([0x44, 0x45, 0x4C, 0x44] : Bytes) /- "DELD" -/ then directory
+  else if magic == ([0x53, 0x51, 0x50, 0x4B] : Bytes) /- "SQPK" -/ then sqpk
+  else if magic == ([0x45, 0x4F, 0x46, 0x5F] : Bytes) /- "EOF_" -/ then pure .eof
   else P.fail
 
 /-- the crc32 that follows every chunk but the end-of-file chunk.  For an AddFile command the
@@ -323,8 +323,8 @@ def exec (inflate : Bytes → Nat → Bool) (limit : Nat) (fs : FS) (ti : Option
     | .addFile => do
       let fs ← io (fs.createDirAll parent)
       -- (the crc was only peeked, see `crc`)
-      let rem ← P.remaining
-      let dataLen ← readBlocks inflate fileSize.toNat (rem + 1) 0
+      let patch ← P.input
+      let dataLen ← readBlocks inflate fileSize.toNat (patch.length + 1) 0
       P.skip 4
       match fs.openCreate path with
       | some fs' =>
@@ -358,7 +358,7 @@ def loop (inflate : Bytes → Nat → Bool) (limit : Nat) : Nat → FS → Optio
 def header : P Unit := do
   P.skip 1
   let m ← P.take 7
-  P.guard (m == ascii "ZIPATCH")
+  P.guard (m == ([0x5A, 0x49, 0x50, 0x41, 0x54, 0x43, 0x48] : Bytes))   -- "ZIPATCH"
   P.skip 4
 
 /-- `ZiPatch::apply(data_dir, patch_path)` with the patch file's bytes `b` (a missing / unreadable
